@@ -29,6 +29,7 @@ def alternatives(ref: Conf, s: str, leaf_filter_keys=None):
     segs = path.split("/")
     last_alts = expand_alias(ref, segs[-1]) if segs[-1] else [""]
     qd = ref.qdict(q) if q else {}
+    qd = {k.replace(" ", ""): v.replace(" ", "") for k, v in qd.items()}     # blanks in a filter are dropped (keys and values)
     if leaf_filter_keys is None:
         leaf_filter_keys = set(v for v in ref.leaf_keys.values() if v)
     for lk in leaf_filter_keys:
